@@ -32,7 +32,7 @@ SPECS = [
  ("C11", "latest-per-task-ascending", S+"execution/version_index_queries.py", "  WHERE\n    task_identifier = ?\n  ORDER BY timestamp DESC\n  LIMIT 1", "  WHERE\n    task_identifier = ?\n  ORDER BY timestamp ASC\n  LIMIT 1"),
  ("C11", "latest-join-on-timestamp-only", S+"execution/version_index_queries.py", "    c.task_identifier = l.task_identifier\n    AND c.timestamp = l.timestamp", "    c.timestamp = l.timestamp"),
  ("C12", "insert-or-replace", S+"execution/version_index_queries.py", "  INSERT INTO version_index (\n    task_identifier,", "  INSERT OR REPLACE INTO version_index (\n    task_identifier,"),
- ("C12", "dirs-exist-ok", S+"cli/restore.py", "            shutil.copytree(src_task_path, dest_task_path, symlinks=True)", "            shutil.copytree(src_task_path, dest_task_path, symlinks=True, dirs_exist_ok=True)"),
+ # ("C12", "dirs-exist-ok", ...) became EQUIVALENT with the D35 repair: restore removes an unrecorded directory in the way before it copies
  ("C12", "commit-before-copy", S+"cli/restore.py", "        # Copy over all archived task outputs\n", "        ctx.version_index.commit_changes()\n        # Copy over all archived task outputs\n"),
  ("C13", "descend-into-task-dirs", S+"cli/gc.py", "                if _REGULAR_TASK_REGEX.match(inner.name) is None:\n                    # If this directory is not a Conductor task directory, we\n                    # should \"explore\" it.\n                    stack.append(inner)", "                stack.append(inner)"),
  ("C13", "dry-run-deletes", S+"cli/gc.py", "                print(\"Would delete\", str(_relative_to_if_possible(exp_path, cwd)))", "                print(\"Would delete\", str(_relative_to_if_possible(exp_path, cwd)))\n                shutil.rmtree(exp_path, ignore_errors=True)"),
@@ -52,6 +52,16 @@ SPECS = [
  ("C20", "dot-admitted", S+"task_identifier.py", "IDENTIFIER_GROUP = \"[a-zA-Z0-9_-]+\"", "IDENTIFIER_GROUP = \"[a-zA-Z0-9_.-]+\""),
  ("C18", "entry-named-after-identifier-path", S+"execution/ops/combine_outputs.py", "            copy_into = self._output_path / dep_id.name", "            copy_into = self._output_path / str(dep_id).replace(\"/\", \"_\").replace(\":\", \"_\")"),
  ("C18", "non-link-silently-replaced", S+"execution/ops/combine_outputs.py", "            elif copy_into.exists():\n                # Unexpected - it should be a symlink.\n                raise CombineOutputFileConflict(output_file=str(copy_into))", "            elif copy_into.is_file():\n                copy_into.unlink()\n            elif copy_into.exists():\n                raise CombineOutputFileConflict(output_file=str(copy_into))"),
+ ("C06", "dirty-flag-inverted", S+"utils/git.py", "            has_changes=(is_clean.returncode != 0),", "            has_changes=(is_clean.returncode == 0),"),
+ ("C17", "farthest-ancestor-root", S+"context.py", "        for path in itertools.chain([here], here.parents):", "        for path in reversed(list(itertools.chain([here], here.parents))):"),
+ ("C18", "relpath-wrong-base", S+"execution/ops/combine_outputs.py", "                    os.path.realpath(dep_dir), os.path.realpath(copy_into.parent)", "                    os.path.realpath(dep_dir), os.path.realpath(self._output_path.parent)"),
+ ("C18", "stale-link-kept", S+"execution/ops/combine_outputs.py", "            if copy_into.is_symlink():\n                copy_into.unlink()", "            if copy_into.is_symlink():\n                continue"),
+ ("C06", "record-before-returncode-check", S+"execution/ops/run_task_executable.py",
+  "        if handle.returncode != 0:\n            raise TaskNonZeroExit(\n                task_identifier=self._identifier, code=handle.returncode\n            )\n",
+  "        if self._version_to_record is not None:\n            ctx.version_index.insert_output_version(\n                self._identifier, self._version_to_record\n            )\n            ctx.version_index.commit_changes()\n            self._version_to_record = None\n        if handle.returncode != 0:\n            raise TaskNonZeroExit(\n                task_identifier=self._identifier, code=handle.returncode\n            )\n"),
+ ("C06", "commit-before-serialize", S+"execution/ops/run_task_executable.py",
+  "        try:\n            if self._serialize_args_options:\n                if not self._args.empty():",
+  "        try:\n            if self._version_to_record is not None:\n                ctx.version_index.insert_output_version(\n                    self._identifier, self._version_to_record\n                )\n                ctx.version_index.commit_changes()\n                self._version_to_record = None\n            if self._serialize_args_options:\n                if not self._args.empty():"),
  ("C06", "row-inserted-at-planning-instead-of-finish",
   [S+"task_types/run.py", S+"execution/ops/run_task_executable.py"],
   ["    def create_new_version(self, ctx: \"c.Context\") -> Version:\n        self._create_new_version(ctx)\n        assert self._most_relevant_version is not None",
